@@ -181,7 +181,11 @@ def _spy_algorithm(base):
         tag = "w"
 
         def update(self, y_pred, y_true, *a, **k):
-            r = super().update(y_pred, y_true, *a, **k)
+            try:
+                r = super().update(y_pred, y_true, *a, **k)
+            except Exception:
+                TAPE.append((self.tag, None))     # the algorithm itself failed: nothing to replay
+                raise
             TAPE.append((self.tag, [float(w) for w in self.weights]))
             return r
     Spy.__name__ = "Spy" + base.__name__
